@@ -66,3 +66,44 @@ pub open spec fn found_from(k: String, a: ScopedIp, l: Seq<DnsRecordIntf>, n: in
     exists|i: int| 0 <= i < n && !(now >= (#[trigger] l[i]).record.rec().expires) && payload_intf(l[i].record.payload()) is Some
         && k@ == rec_name(l[i].record.rec()) && a == payload_scoped(l[i].record.payload())
 }
+
+// one step of the refresh_due_* walkers on one held record: a record whose refresh mark has been reached and that has not
+// expired moves to its next mark (80 -> 85 -> 90 -> 95 -> end of life) and reports the new mark; any other record is left alone
+pub open spec fn mark_rec_step(a: DnsRecordIntf, b: DnsRecordIntf, now: u64) -> bool {
+    b.src_intf == a.src_intf && b.record.payload() == a.record.payload()
+    && b.record.rec() == (DnsRecord { refresh: b.record.rec().refresh, ..a.record.rec() })
+    && if due_and_live(a.record.rec(), now) {
+        a.record.rec().ttl >= 1 && mark_idx(a.record.rec()) < 4 ==> mark_idx(b.record.rec()) == mark_idx(a.record.rec()) + 1
+    } else { b.record.rec() == a.record.rec() }
+}
+pub open spec fn mark_step(a: DnsRecordIntf, b: DnsRecordIntf, o: Option<u64>, now: u64) -> bool {
+    mark_rec_step(a, b, now) && o == (if due_and_live(a.record.rec(), now) { Some(b.record.rec().refresh) } else { None::<u64> })
+}
+pub open spec fn list_in(m: Map<String, Vec<DnsRecordIntf>>, name: Seq<char>) -> Seq<DnsRecordIntf> { if m_has(m, name) { m[key_string(name)]@ } else { Seq::empty() } }
+pub open spec fn some_due(l: Seq<DnsRecordIntf>, n: int, now: u64) -> bool { exists|i: int| 0 <= i < n && due_and_live((#[trigger] l[i]).record.rec(), now) }
+
+// ---- remove_addrs_on_disabled_intf ----
+impl IpType {
+    pub const V4: IpType = IpType(0b01);
+    pub const V6: IpType = IpType(0b10);
+    pub const BOTH: IpType = IpType(0b11);
+}
+impl DnsRecordDyn {
+    // the address view with the interface it was learnt on and the record inside
+    #[verifier::external_body]
+    pub fn as_addr_full(&self) -> (r: Option<&DnsAddress>)
+        ensures r is Some <==> payload_intf(self.payload()) is Some, r is Some ==> r->Some_0.interface_id.index == payload_intf(self.payload())->Some_0 && r->Some_0.record == self.rec(),
+    { unimplemented!() }
+}
+// `vec.retain(|x| P(x))` with a closure that only reads: the elements satisfying P, in order.  `p` is the ghost reading of the
+// closure's contract (the closure must decide exactly p)
+#[verifier::external_body]
+pub fn vx_retain<T, F: Fn(&T) -> bool>(v: &mut Vec<T>, f: F, p: Ghost<spec_fn(T) -> bool>)
+    requires forall|x: &T| #[trigger] f.requires((x,)), forall|x: &T, b: bool| #[trigger] f.ensures((x,), b) ==> b == p@(*x),
+    ensures final(v)@ == old(v)@.filter(p@),
+{ unimplemented!() }
+// the statement (C18): an address record learnt on the disabled interface whose family is switched off goes, every other stays
+pub open spec fn family_off(t: RRType, ip_type: IpType) -> bool { (t == RRType::A && ip_type.0 & 1 == 1) || (t == RRType::AAAA && ip_type.0 & 2 == 2) }
+pub open spec fn stays_on_disable(r: DnsRecordIntf, idx: u32, ip_type: IpType) -> bool {
+    payload_intf(r.record.payload()) is Some && !(payload_intf(r.record.payload())->Some_0 == idx && family_off(r.record.rec().entry.ty, ip_type))
+}
